@@ -177,7 +177,8 @@ type Machine struct {
 
 	snapshots [][]snapCell
 	logs      []string
-	poolMode  int // 1: sync.Pool as a LIFO cache (vfSetPoolMode)
+	poolMode  int              // 1: sync.Pool as a LIFO cache (vfSetPoolMode)
+	builders  map[*Value]Value // strings.Builder contents by address
 	mapOrder  int
 	mapFlip   int
 	sched     []SchedEntry
